@@ -156,6 +156,12 @@ CLI_LAYOUTS = [
     ({"s/a.mac": SRC + "make_raw \"../up.raw\"\n"}, ".", ["s/a.mac"], {"up.raw": ("raw", None)}),
     ({"s/a.mac": SRC + "make_wav \"t/x.wav\"\n", "s/t/keep": ""}, ".", ["s/a.mac"], {"s/t/x.wav": ("bk_wav", "x")}),
     ({"s/a.mac": SRC + "make_bin \"x.bin\"\n"}, "s", ["a.mac"], {"s/x.bin": ("bin", None)}),
+    # unusual first characters of a file name (a leading '~' is a device only if the name is a registered device), run from another directory
+    ({"s/a.mac": SRC + "make_bin \"~prog.bin\"\nmake_raw \"~image\"\n"}, ".", ["s/a.mac"], {"s/~prog.bin": ("bin", None), "s/~image": ("raw", None)}),
+    ({"s/a.mac": SRC + "make_wav \"~t.wav\"\nmake_raw \"~speakers.raw\"\n"}, ".", ["s/a.mac"], {"s/~t.wav": ("bk_wav", "~t"), "s/~speakers.raw": ("raw", None)}),
+    ({"s/a.mac": SRC + "make_bin \".hid.bin\"\nmake_raw \"two words.raw\"\nmake_raw \"-dash\"\n"}, ".", ["s/a.mac"], {"s/.hid.bin": ("bin", None), "s/two words.raw": ("raw", None), "s/-dash": ("raw", None)}),
+    ({"s/a.mac": "\t.link 1000\n\t.include \"~inc.mac\"\n\tinsert_file \"~tail.dat\"\nmake_bin \"x.bin\"\n", "s/~inc.mac": "start:\tmov #start, r0\n\t.word 1, 2, 3\n", "s/~tail.dat": "\x07"}, ".", ["s/a.mac"], {"s/x.bin": ("bin", None)}),
+    ({"s/a.mac": SRC + "make_bin \"~prog.bin\"\n"}, "s", ["a.mac"], {"s/~prog.bin": ("bin", None)}),
     ({"a.mac": SRC + "make_wav \"tape.wav\"\n"}, ".", ["a.mac"], {"tape.wav": ("bk_wav", "tape")}),
     ({"a.mac": SRC + "make_wav \"tape.WAV\"\n"}, ".", ["a.mac"], {"tape.WAV": ("bk_wav", "tape")}),
     ({"a.mac": SRC + "make_wav \"tape\"\n"}, ".", ["a.mac"], {"tape": ("bk_wav", "tape")}),
